@@ -43,7 +43,9 @@ Definition valid (t : ity) (m : mapping) : Prop :=
       length ss = length es /\
       Forall (fun e => 0 <= e <= imax t) es /\
       Forall (fun s => 0 < s <= imax t) ss /\
-      orderable (combine es ss) /\                          (* the standard's permutation precondition *)
+      (existsb (Z.eqb 0) es = false -> chainable (combine es ss)) /\   (* some ordering of the dimensions is a descending chain
+                                                                        (implied by the standard's permutation precondition, see
+                                                                        LayoutProofs.std_precondition_chainable) *)
       span1 (combine (map max1 es) ss) <= imax t            (* REQUIRED-SPAN-SIZE, zeros counted as one *)
   | MLPad es ps =>
       admissible t es /\
